@@ -134,9 +134,8 @@ def call_real(case):
         paths = write_inputs(d, inputs, case["fmt"], case["ext"], scale, names, nullpay=nullpay)
         try:
             if impl == "rowdict":
-                old = U.MERGE_SORT_CHUNK_SIZE
-                U.MERGE_SORT_CHUNK_SIZE = case["rchunk"]      # what MOKAPOT_MERGE_SORT_CHUNK_SIZE configures
-                try:
+                from drivers.mk import patched
+                with patched(MERGE_SORT_CHUNK_SIZE=case["rchunk"]):      # what MOKAPOT_MERGE_SORT_CHUNK_SIZE configures
                     hist = case.get("history")
                     other = None
                     if hist:
@@ -150,8 +149,6 @@ def call_real(case):
                         rows.append(dict(row))
                         if hist == "interleaved":
                             next(other, None)
-                finally:
-                    U.MERGE_SORT_CHUNK_SIZE = old
             else:
                 readers = [TabularDataReader.from_path(p) for p in paths]
                 api = case["api"]
